@@ -1,12 +1,15 @@
 (* C02 — Same database, query and options always give the same ranked answer.  Statements only.
-   The model of the repaired engine is a FUNCTION (Model/Engine.v has no schedule argument): results are
-   collected in document order and every ranking sort is the stable insertion sort, so there is nothing
-   left for the runtime's map order to decide. The two places where the code still ranges over a map
-   and then sorts the keys are covered by collect_order_independent. [partial]: that the real code has no
-   other order dependence is what the repetition correspondence samples (bit-identical answers on
-   repeated calls and on an independently loaded copy). *)
+   The Go runtime's map iteration order plays the role of a scheduler. In the repaired engine every place that walks
+   a hash map either sorts what it collected or sums in sorted-key order, and every ranking sort is stable; the model
+   (Model/Engine.v, Model/Tfidf.v) is therefore a FUNCTION with no order argument, and the theorems below are the facts
+   that make that modelling decision sound: whatever order the runtime hands the keys out in, the sorted list is the
+   same; the stable sort keeps tied entries in document order, so the survivor of a limit is fixed.
+   [partial]: that the real code has no OTHER order dependence is what the correspondence samples on every run
+   (bit-identical answers on 8 repeated calls and on an independently loaded copy; the TF-IDF model, which sums in
+   index order, is compared bit for bit with the code's ranking). *)
 From Coq Require Import List ZArith NArith Bool Floats Sorting.Permutation.
-From WTF Require Import Model.Validate Model.Text Model.Platform Model.Engine Proofs.EngineProofs.
+From WTF Require Import Model.Validate Model.Text Model.Platform Model.Engine Model.Tfidf
+                        Proofs.EngineProofs Proofs.TfidfProofs Proofs.StableProofs.
 From WTF Require Proofs.Corollaries.
 Import ListNotations.
 
@@ -14,15 +17,31 @@ Import ListNotations.
 Theorem collect_order_independent : forall ord ord', Permutation ord ord' -> sort_nat ord = sort_nat ord'.
 Proof. exact collect_order_independent. Qed.
 
+(* the TF-IDF vocabulary (hence every term index, idf entry and vector) does not depend on the order - nor on the
+   multiplicity - in which the word-count map hands out its keys *)
+Theorem vocabulary_order_independent : forall ws ws', (forall w, In w ws <-> In w ws') -> sorted_words ws = sorted_words ws'.
+Proof. exact sorted_words_order_independent. Qed.
+
 (* the ranking sort only permutes its input: which commands are ranked never depends on it *)
 Theorem ranking_is_permutation : forall (l : list (nat * float)), Permutation (sort_desc by_score l) l.
 Proof. exact Corollaries.ranking_is_permutation. Qed.
 
-(* the answer is a function of (database, query, options, oracles): two evaluations agree *)
-Theorem search_deterministic : forall E cmds q o nl r1 r2,
-  r1 = search_universal E cmds q o nl -> r2 = search_universal E cmds q o nl -> r1 = r2.
-Proof. intros; congruence. Qed.
+(* ties are ordered by a fixed rule: entries none of which scores strictly above another (in particular entries with
+   equal scores) leave the ranking sort in the order they entered it, i.e. document order; what a limit keeps of them
+   is therefore a prefix of their document order *)
+Theorem ties_keep_document_order : forall (p : nat * float -> bool) (l : list (nat * float)),
+  (forall x y, In x l -> In y l -> p x = true -> p y = true -> PrimFloat.ltb (by_score x) (by_score y) = false) ->
+  filter p (sort_desc by_score l) = filter p l.
+Proof. exact (sort_stable by_score). Qed.
+
+(* the TF-IDF ranking names each command at most once and only commands of the database *)
+Theorem tfidf_ranking_wellformed : forall docs logt q limit,
+  let r := tfidf_search docs logt q limit in
+  NoDup (map fst r) /\ forall i s, In (i, s) r -> (i < length docs)%nat /\ PrimFloat.ltb 0x1.47ae147ae147bp-7 s = true.
+Proof. exact tfidf_search_wellformed. Qed.
 
 Print Assumptions collect_order_independent.
+Print Assumptions vocabulary_order_independent.
 Print Assumptions ranking_is_permutation.
-Print Assumptions search_deterministic.
+Print Assumptions ties_keep_document_order.
+Print Assumptions tfidf_ranking_wellformed.
